@@ -28,8 +28,14 @@ LEVEL_TEXT = ("Unbounded Coq theorems (Props/C17.v, statements in C17/Spec.v) ab
               "the definition read over walks that never re-enter x, avoid y and never step straight back; empty when y is not "
               "connected to x), pds_walk_excludes (never x, never y), pds_never_smaller(_y) (superset of the definition over SIMPLE "
               "paths - the direction FCI needs), block_spec (the model's block of the edge x-y is the set of nodes on a simple cycle "
-              "through it), pds_path_block and pds_t_filter (definitional intersections / lag filter), pds_def_path_dec_complete (the "
-              "simple-path oracle used by the check misses nothing). pds_exact_refuted is a kernel computation on a 5-node witness: "
+              "through it), pds_path_block and pds_t_filter (definitional intersections / lag filter), pds_def_path_dec_exact (the "
+              "simple-path oracle used by the check is sound and complete for the Prop pds_def_path, with and without endpoint), "
+              "pds_path_never_smaller / pds_t_never_smaller / pds_t_path_never_smaller (end to end: definition intersected with the "
+              "block and the lag bound is contained in the result), ts_enc_bijection + pds_t_ts_spec / pds_t_pairs_spec (time-series "
+              "nodes (variable,|lag|) encoded as variable*(L+1)+|lag|, the encoding the harness uses; the filter keeps exactly the "
+              "nodes with |lag| <= max(|lag x|,|lag y|)), pds_asis_spec / pds_asis_depth2 / pds_asis_subset (the search of /repo as "
+              "it is reaches exactly the walks whose triples are all tested against x = the neighbours of x plus one collider step, "
+              "always inside the walk definition). pds_exact_refuted / pds_walk_path_differ: kernel computation on a 5-node witness, "
               "'exactly' is false for the simple-path reading. The link to /repo is differential correspondence (tie K) on MARKS(n) "
               "n<=3 exhaustively, sampled n=4,5, forced collider / triangle chains n<=8, stationary 2-variable time-series PAGs.")
 LEVEL_NOTE = ("Verdict per returned set S: simple-path definition not within S => VIOLATION; S not within the walk definition => "
